@@ -327,9 +327,13 @@ func (c *CaseRec) RegSync(answers map[string]int) {
 type Peer struct {
 	Target string
 	Serve  func(h uint64) ([]byte, error)
+	Slow   bool // answers only after the timeout: the model sees a failed request
 }
 
 func respSx(c *CaseRec, p *Peer, h uint64) string {
+	if p.Slow {
+		return "(fail timeout)"
+	}
 	bs, err := p.Serve(h)
 	if err != nil {
 		return "(fail fetch)"
